@@ -11,6 +11,6 @@ CONSTANTS SlotDur = 3
  AttOffs = {0, 1, 2}
  ProMenu = {0, 1, 2, 3}
  SyncMenu = {0, 1, 2}
- Starts = {0, 1, 3, 6}
+ Starts = {0, 1, 6}
 INVARIANTS AtMostOnce OnlyAssigned NotEarly TickOrder TickNotEarly Complete TruthOK TickFresh
 CHECK_DEADLOCK FALSE
